@@ -61,3 +61,145 @@ package relationtuple
 //@   modifies db
 //@   ensures db == old(db)
 //@   ensures err == nil ==> res != nil
+
+// =====================================================================================
+// REST / gRPC handlers of the relationship API (C13 no crash, C17 read-only list,
+// C05 the parts of atomicity that are decided in this package, C04 plumbing)
+
+//@ func handlerDeps.Writer
+//@   trusted
+//@   pure
+//@   ensures result != nil
+//@ func handlerDeps.Logger
+//@   trusted
+//@   pure
+//@   ensures result != nil
+//@ func handlerDeps.Mapper
+//@   trusted
+//@   pure
+//@   ensures result != nil
+//@ func handlerDeps.ReadOnlyMapper
+//@   trusted
+//@   pure
+//@   ensures result != nil && result.ReadOnly
+//@ func handlerDeps.RelationTupleManager
+//@   trusted
+//@   pure
+//@   ensures result != nil
+//@ func handlerDeps.Transactor
+//@   trusted
+//@   pure
+//@   ensures result != nil
+
+// write operations of the manager (ASSUMED): they may change the database; wfailed records
+// that one of them returned an error during the current request
+//@ ghostvar wfailed bool
+//@ func Manager.WriteRelationTuples
+//@   trusted
+//@   modifies db, wfailed
+//@   ensures wfailed == (old(wfailed) || result != nil)
+//@ func Manager.DeleteRelationTuples
+//@   trusted
+//@   modifies db, wfailed
+//@   ensures wfailed == (old(wfailed) || result != nil)
+//@ func Manager.DeleteAllRelationTuples
+//@   trusted
+//@   requires query != nil
+//@   modifies db, wfailed
+//@   ensures wfailed == (old(wfailed) || result != nil)
+//@ func Manager.TransactRelationTuples
+//@   trusted
+//@   modifies db, wfailed
+//@   ensures wfailed == (old(wfailed) || result != nil)
+
+//@ func (*Mapper).FromQuery
+//@   trusted
+//@   requires m != nil && ctx != nil && apiQuery != nil
+//@   modifies db
+//@   ensures[C17] read-only-mapper: m.ReadOnly ==> db == old(db)
+//@   ensures err == nil ==> res != nil && (res.Subject == nil || wfsubject(res.Subject))
+
+//@ func (*Mapper).ToTuple
+//@   trusted
+//@   requires m != nil && ctx != nil
+//@   modifies db
+//@   ensures db == old(db)
+//@   ensures err == nil ==> len(res) == len(ts) && (forall i in 0..len(res) :: onesubject(res[i]))
+
+//@ spec wfrh(h *handler) bool = h != nil && h.d != nil
+
+//@ func (*handler).getRelations
+//@   props C07 C13 C17
+//@   requires wfrh(h) && r != nil && r.URL != nil && w != nil
+//@   modifies db, faulted, respKind, respCode
+//@   ensures[C17] read-only: db == old(db)
+//@   loop 1 invariant l != nil
+
+//@ func (*handler).ListRelationTuples
+//@   props C07 C13 C17
+//@   requires wfrh(h) && ctx != nil && req != nil
+//@   requires req.RelationQuery != nil ==> wfwiresubject(req.RelationQuery.Subject)
+//@   requires req.Query != nil ==> wfwiresubject(req.Query.Subject)
+//@   modifies db, faulted
+//@   ensures[C17] read-only: db == old(db)
+
+//@ func protoTuplesWithAction
+//@   props C04 C13
+//@   modifies nothing
+//@   requires forall i in 0..len(deltas) :: deltas[i] != nil && (deltas[i].RelationTuple != nil ==> wfwiresubject(deltas[i].RelationTuple.Subject))
+//@   ensures err == nil ==> forall k in 0..len(filtered) :: filtered[k] != nil
+//@   loop 1 invariant (isnil(filtered) || fresh(filtered))
+
+//@ func internalTuplesWithAction
+//@   props C04 C13
+//@   modifies nothing
+//@   requires[C13] no-nil-delta: forall i in 0..len(deltas) :: deltas[i] != nil
+//@   loop 1 invariant (isnil(filtered) || fresh(filtered))
+
+//@ func (*handler).TransactRelationTuples
+//@   props C04 C05 C13
+//@   requires wfrh(h) && ctx != nil && req != nil
+//@   requires forall i in 0..len(req.RelationTupleDeltas) :: req.RelationTupleDeltas[i] != nil && (req.RelationTupleDeltas[i].RelationTuple != nil ==> wfwiresubject(req.RelationTupleDeltas[i].RelationTuple.Subject))
+
+//@ func (*handler).TransactRelationTuples$1
+//@   props C04 C05 C13
+//@   noframe
+//@   requires wfrh(h) && ctx != nil
+//@   modifies db, wfailed
+//@   callsite (*Mapper).FromTuple requires[C05] tx-context: $arg1 == ctx
+//@   ensures[C05] error-returned: !old(wfailed) && result == nil ==> !wfailed
+
+//@ func (*handler).DeleteRelationTuples
+//@   props C04 C13
+//@   requires wfrh(h) && ctx != nil && req != nil
+//@   requires req.RelationQuery != nil ==> wfwiresubject(req.RelationQuery.Subject)
+//@   requires req.Query != nil ==> wfwiresubject(req.Query.Subject)
+
+//@ func (*handler).createRelation
+//@   props C04 C05 C13
+//@   requires wfrh(h) && r != nil && r.URL != nil && w != nil && r.Body != nil
+
+//@ func (*handler).createRelation$1
+//@   props C04 C05 C13
+//@   noframe
+//@   requires wfrh(h) && ctx != nil
+//@   modifies db, wfailed
+//@   callsite (*Mapper).FromTuple requires[C05] tx-context: $arg1 == ctx
+//@   ensures[C05] error-returned: !old(wfailed) && result == nil ==> !wfailed
+
+//@ func (*handler).deleteRelations
+//@   props C04 C13
+//@   requires wfrh(h) && r != nil && r.URL != nil && w != nil
+//@   loop 1 invariant l != nil
+
+//@ func (*handler).patchRelationTuples
+//@   props C04 C05 C13
+//@   requires wfrh(h) && r != nil && r.URL != nil && w != nil && r.Body != nil
+
+//@ func (*handler).patchRelationTuples$1
+//@   props C04 C05 C13
+//@   noframe
+//@   requires wfrh(h) && ctx != nil
+//@   modifies db, wfailed
+//@   callsite (*Mapper).FromTuple requires[C05] tx-context: $arg1 == ctx
+//@   ensures[C05] error-returned: !old(wfailed) && result == nil ==> !wfailed
